@@ -119,4 +119,408 @@ theorem skip_frames {α : Type} (body : α → Bytes) (i : Nat) (hi : i < 2 ^ 61
     rw [ih' (by omega) (by simp only [List.length_append]; omega)]
     simp only [Nat.add_assoc]
 
+theorem app_nil_le (t : Ty) (v : Val) (tag : Bytes) (hwf : t.wf) (hty : t.hasTy v)
+    (hp : v.present = true) (hr : t.deref.isProtoRep = false) (ht : tag ≠ []) :
+    (t.app v []).length ≤ (t.app v tag).length := by
+  by_cases hl : t.wt = .len
+  · rw [app_frame_len t v tag hwf hty hp hl hr ht]; simp only [List.length_append]; omega
+  · rw [app_frame_other t v tag hwf hty hp hl]; simp only [List.length_append]; omega
+
+/-- **Unknown fields of every form are skipped exactly**: a field in any shape a
+struct field can take (single frame of any wire type, or one frame per element /
+entry for the repeated forms), followed by arbitrary bytes, read by a loop that
+does not know its index: the loop continues on the following bytes, accumulator
+unchanged. -/
+theorem skip_unknown_field (t : Ty) (hwf : t.wf) (hs : Ty.rtShape true t) (v : Val) (hty : t.hasTy v)
+    (hom : v.omit = false) (i : Nat) (hi : i < 2 ^ 61)
+    (hsz : (t.app v (appendTag t.wt i)).length < 2 ^ 64)
+    (rd : Nat → WT → Bytes → List Val → Res (List Val × Nat)) (acc : List Val) (hrd : Skips rd i acc)
+    (fuel : Nat) (rest : Bytes) (off : Nat)
+    (hf : (t.app v (appendTag t.wt i) ++ rest).length < fuel) :
+    structLoop rd fuel (t.app v (appendTag t.wt i) ++ rest) off acc
+      = structLoop rd fuel rest (off + (t.app v (appendTag t.wt i)).length) acc := by
+  by_cases hrep : t.isProtoRep = true
+  · cases t with
+    | pslice u =>
+      cases v with
+      | slice vs =>
+        simp only [Ty.rtShape, true_and] at hs
+        have hE := pslice_frames u vs (appendTag (Ty.pslice u).wt i) hwf hty (deref_not_rep u hs)
+          (appendTag_ne_nil _ _)
+        rw [hE] at hsz hf ⊢
+        simp only [Ty.wt, elemFrame] at hsz hf ⊢
+        exact skip_frames (fun v => u.app v []) i hi rd acc hrd vs fuel rest off hsz hf
+      | _ => simp [Ty.hasTy] at hty
+    | map k x p =>
+      cases p with
+      | false => simp [Ty.isProtoRep] at hrep
+      | true =>
+        cases v with
+        | map o =>
+          cases o with
+          | none => simp [Val.omit] at hom
+          | some es =>
+            have hE := pmap_frames k x es (appendTag (Ty.map k x true).wt i) hwf hty
+            rw [hE] at hsz hf ⊢
+            simp only [Ty.wt] at hsz hf ⊢
+            exact skip_frames (entryBody k x) i hi rd acc hrd es fuel rest off hsz hf
+        | _ => simp [Ty.hasTy] at hty
+    | _ => simp [Ty.isProtoRep] at hrep
+  · have hrep' : t.isProtoRep = false := by simpa using hrep
+    have hs' := shape_false_of_true t hrep' hs
+    have hp := present_of_shape t hs' v hty (ne_ptr_none_of_not_omit v hom)
+    have hr := deref_not_rep t hs'
+    have hle := app_nil_le t v (appendTag t.wt i) hwf hty hp hr (appendTag_ne_nil _ _)
+    exact skip_unknown_rd t v i hi hwf hty hp hr (by omega) rd acc hrd fuel rest off hf
+
+/-! ### 2. `projectWith`, `priorFitsWith`, `lookupWith` -/
+
+theorem projectWith_congr (look1 look2 : Nat → Ty → Option Val) :
+    ∀ (fs' : Fields) (ps : List Val), (∀ f' ∈ fs', look1 f'.1 f'.2.2 = look2 f'.1 f'.2.2) →
+      projectWith look1 fs' ps = projectWith look2 fs' ps := by
+  intro fs'
+  induction fs' with
+  | nil => intro ps _; simp [projectWith]
+  | cons f' fs' ih =>
+    obtain ⟨i', n', t'⟩ := f'
+    intro ps h
+    cases ps with
+    | nil => simp [projectWith]
+    | cons p ps =>
+      have h1 := h (i', n', t') (by simp)
+      simp only at h1
+      simp only [projectWith, h1, ih ps (fun f hf => h f (by simp [hf]))]
+
+theorem priorFitsWith_congr (look1 look2 : Nat → Ty → Option Val) :
+    ∀ (fs' : Fields) (ps : List Val), (∀ f' ∈ fs', look1 f'.1 f'.2.2 = look2 f'.1 f'.2.2) →
+      priorFitsWith look1 fs' ps → priorFitsWith look2 fs' ps := by
+  intro fs'
+  induction fs' with
+  | nil => intro ps _ h; cases ps <;> simp [priorFitsWith] at h ⊢
+  | cons f' fs' ih =>
+    obtain ⟨i', n', t'⟩ := f'
+    intro ps h hp
+    cases ps with
+    | nil => simp [priorFitsWith] at hp
+    | cons p ps =>
+      have h1 := h (i', n', t') (by simp)
+      simp only at h1
+      simp only [priorFitsWith, h1] at hp ⊢
+      exact ⟨hp.1, ih ps (fun f hf => h f (by simp [hf])) hp.2⟩
+
+theorem priorFitsWith_length (look : Nat → Ty → Option Val) :
+    ∀ (fs' : Fields) (ps : List Val), priorFitsWith look fs' ps → ps.length = fs'.length := by
+  intro fs'
+  induction fs' with
+  | nil => intro ps h; cases ps with
+    | nil => rfl
+    | cons _ _ => simp [priorFitsWith] at h
+  | cons f' fs' ih =>
+    obtain ⟨i', n', t'⟩ := f'
+    intro ps h
+    cases ps with
+    | nil => simp [priorFitsWith] at h
+    | cons p ps =>
+      simp only [priorFitsWith] at h
+      simp [ih ps h.2]
+
+/-- nothing to fill: the prior list comes back unchanged. -/
+theorem projectWith_none (look : Nat → Ty → Option Val) :
+    ∀ (fs' : Fields) (ps : List Val), (∀ f' ∈ fs', look f'.1 f'.2.2 = none) → ps.length = fs'.length →
+      projectWith look fs' ps = ps := by
+  intro fs'
+  induction fs' with
+  | nil => intro ps _ hl; cases ps with
+    | nil => rfl
+    | cons _ _ => simp at hl
+  | cons f' fs' ih =>
+    obtain ⟨i', n', t'⟩ := f'
+    intro ps h hl
+    cases ps with
+    | nil => simp at hl
+    | cons p ps =>
+      have h1 := h (i', n', t') (by simp)
+      simp only at h1
+      simp only [projectWith, h1, Option.getD_none,
+        ih ps (fun f hf => h f (by simp [hf])) (by simpa using hl)]
+
+/-- all zeros fit any data. -/
+theorem priorFitsWith_zeros (look : Nat → Ty → Option Val) :
+    ∀ (fs' : Fields), priorFitsWith look fs' (zeros fs') := by
+  intro fs'
+  induction fs' with
+  | nil => simp [zeros, priorFitsWith]
+  | cons f' fs' ih =>
+    obtain ⟨i', n', t'⟩ := f'
+    simp only [zeros, priorFitsWith, implies_true, true_and]
+    exact ih
+
+theorem projectWith_split (look : Nat → Ty → Option Val) (f' : Nat × String × Ty) (suf' : Fields) (a : Val)
+    (asuf : List Val) :
+    ∀ (pre' : Fields) (apre : List Val), apre.length = pre'.length →
+      projectWith look (pre' ++ f' :: suf') (apre ++ a :: asuf)
+        = projectWith look pre' apre ++ (look f'.1 f'.2.2).getD a :: projectWith look suf' asuf := by
+  intro pre'
+  induction pre' with
+  | nil =>
+    intro apre hl
+    cases apre with
+    | nil => obtain ⟨i', n', t'⟩ := f'; simp [projectWith]
+    | cons _ _ => simp at hl
+  | cons g pre' ih =>
+    obtain ⟨j, nj, tj⟩ := g
+    intro apre hl
+    cases apre with
+    | nil => simp at hl
+    | cons b apre =>
+      simp only [List.cons_append, projectWith, ih apre (by simpa using hl)]
+
+/-- split a fitting prior list at a field of the target. -/
+theorem priorFitsWith_split (look : Nat → Ty → Option Val) (f' : Nat × String × Ty) (suf' : Fields) :
+    ∀ (pre' : Fields) (acc : List Val), priorFitsWith look (pre' ++ f' :: suf') acc →
+      ∃ apre a asuf, acc = apre ++ a :: asuf ∧ apre.length = pre'.length ∧
+        priorFitsWith look pre' apre ∧ ((look f'.1 f'.2.2).isSome = true → a = f'.2.2.zero) ∧
+        priorFitsWith look suf' asuf := by
+  intro pre'
+  induction pre' with
+  | nil =>
+    intro acc h
+    obtain ⟨i', n', t'⟩ := f'
+    cases acc with
+    | nil => simp [priorFitsWith] at h
+    | cons a asuf =>
+      simp only [List.nil_append, priorFitsWith] at h
+      exact ⟨[], a, asuf, rfl, rfl, by simp [priorFitsWith], h.1, h.2⟩
+  | cons g pre' ih =>
+    obtain ⟨j, nj, tj⟩ := g
+    intro acc h
+    cases acc with
+    | nil => simp [priorFitsWith] at h
+    | cons b acc =>
+      simp only [List.cons_append, priorFitsWith] at h
+      obtain ⟨apre, a, asuf, rfl, hl, h1, h2, h3⟩ := ih acc h.2
+      refine ⟨b :: apre, a, asuf, rfl, by simp [hl], ?_, h2, h3⟩
+      simp only [priorFitsWith]
+      exact ⟨h.1, h1⟩
+
+theorem priorFitsWith_join (look : Nat → Ty → Option Val) (f' : Nat × String × Ty) (suf' : Fields) (a : Val)
+    (asuf : List Val) (ha : (look f'.1 f'.2.2).isSome = true → a = f'.2.2.zero)
+    (hsuf : priorFitsWith look suf' asuf) :
+    ∀ (pre' : Fields) (apre : List Val), priorFitsWith look pre' apre →
+      priorFitsWith look (pre' ++ f' :: suf') (apre ++ a :: asuf) := by
+  intro pre'
+  induction pre' with
+  | nil =>
+    intro apre h
+    obtain ⟨i', n', t'⟩ := f'
+    cases apre with
+    | nil => simp only [List.nil_append, priorFitsWith]; exact ⟨ha, hsuf⟩
+    | cons _ _ => simp [priorFitsWith] at h
+  | cons g pre' ih =>
+    obtain ⟨j, nj, tj⟩ := g
+    intro apre h
+    cases apre with
+    | nil => simp [priorFitsWith] at h
+    | cons b apre =>
+      simp only [priorFitsWith] at h
+      simp only [List.cons_append, priorFitsWith]
+      exact ⟨h.1, ih apre h.2⟩
+
+/-- an index that does not occur among the writer's fields is not in the data. -/
+theorem lookupWith_none (pr : Ty → Ty → Val → Val) :
+    ∀ (gs : Fields) (vs : List Val) (i' : Nat) (t' : Ty), i' ∉ gs.map (·.1) →
+      lookupWith pr gs vs i' t' = none := by
+  intro gs
+  induction gs with
+  | nil => intro vs i' t' _; simp [lookupWith]
+  | cons g gs ih =>
+    obtain ⟨j, nj, tj⟩ := g
+    intro vs i' t' h
+    cases vs with
+    | nil => simp [lookupWith]
+    | cons v vs =>
+      have hji : ¬ j = i' := by intro e; apply h; simp [e]
+      have h' : i' ∉ gs.map (·.1) := by
+        intro e; apply h; simp only [List.map_cons, List.mem_cons]; exact Or.inr e
+      simp only [lookupWith, hji, false_and, ↓reduceIte, ih vs i' t' h']
+
+theorem fieldsProj_eq : ∀ (gs : Fields) (vs : List Val) (i' : Nat) (t' : Ty),
+    fieldsProj gs vs i' t' = lookupWith Ty.proj gs vs i' t' := by
+  intro gs
+  induction gs with
+  | nil => intro vs i' t'; simp [fieldsProj, lookupWith]
+  | cons g gs ih =>
+    obtain ⟨j, nj, tj⟩ := g
+    intro vs i' t'
+    cases vs with
+    | nil => simp [fieldsProj, lookupWith]
+    | cons v vs => simp only [fieldsProj, lookupWith, ih vs i' t']
+
+theorem fieldsProj_eq' (gs : Fields) (vs : List Val) : fieldsProj gs vs = lookupWith Ty.proj gs vs := by
+  funext i' t'; exact fieldsProj_eq gs vs i' t'
+
+/-! ### 3. the struct loop of the target over data of the source -/
+
+/-- Decoding one field written with codec `t` by a target field with codec `t'`:
+the struct loop, started on the field's encoding with the target field at its
+zero value, continues on the following bytes with the target field at `r v`.
+(`RT.RTField t` is `EvField t t t.norm`.) -/
+def EvField (t t' : Ty) (r : Val → Val) : Prop :=
+  ∀ (i : Nat) (v : Val), i < 2 ^ 61 → t.hasTy v → v.omit = false →
+    (t.app v (appendTag t.wt i)).length < 2 ^ 64 →
+    ∀ (rd : Nat → WT → Bytes → List Val → Res (List Val × Nat)) (put : Val → List Val),
+      (∀ wt body a, rd i wt body (put a) = Res.mapFst put (fieldRead t' wt body a)) →
+      ∀ (fuel : Nat) (rest : Bytes) (off : Nat), (t.app v (appendTag t.wt i) ++ rest).length < fuel →
+        structLoop rd fuel (t.app v (appendTag t.wt i) ++ rest) off (put t'.zero)
+          = structLoop rd fuel rest (off + (t.app v (appendTag t.wt i)).length) (put (r v))
+
+theorem evField_of_rtField (t : Ty) (h : RTField t) : EvField t t t.norm := h
+
+/-- a field of the source that the target does not have. -/
+def SkipField (t : Ty) : Prop :=
+  ∀ (i : Nat) (v : Val), i < 2 ^ 61 → t.hasTy v → v.omit = false →
+    (t.app v (appendTag t.wt i)).length < 2 ^ 64 →
+    ∀ (rd : Nat → WT → Bytes → List Val → Res (List Val × Nat)) (acc : List Val), Skips rd i acc →
+      ∀ (fuel : Nat) (rest : Bytes) (off : Nat), (t.app v (appendTag t.wt i) ++ rest).length < fuel →
+        structLoop rd fuel (t.app v (appendTag t.wt i) ++ rest) off acc
+          = structLoop rd fuel rest (off + (t.app v (appendTag t.wt i)).length) acc
+
+theorem skipField_of_shape (t : Ty) (hwf : t.wf) (hs : Ty.rtShape true t) : SkipField t :=
+  fun i v hi hty hom hsz rd acc hrd fuel rest off hf =>
+    skip_unknown_field t hwf hs v hty hom i hi hsz rd acc hrd fuel rest off hf
+
+theorem lookupWith_omit (pr : Ty → Ty → Val → Val) (f : Nat × String × Ty) (gs : Fields) (v : Val)
+    (vs : List Val) (ho : v.omit = true) :
+    lookupWith pr (f :: gs) (v :: vs) = lookupWith pr gs vs := by
+  obtain ⟨i, nm, t⟩ := f
+  funext i' t'
+  simp [lookupWith, ho]
+
+theorem lookupWith_ne (pr : Ty → Ty → Val → Val) (i : Nat) (nm : String) (t : Ty) (gs : Fields) (v : Val)
+    (vs : List Val) (i' : Nat) (t' : Ty) (h : ¬ i = i') :
+    lookupWith pr ((i, nm, t) :: gs) (v :: vs) i' t' = lookupWith pr gs vs i' t' := by
+  simp [lookupWith, h]
+
+theorem nodup_split_notin (pre' : Fields) (f' : Nat × String × Ty) (suf' : Fields)
+    (h : ((pre' ++ f' :: suf').map (·.1)).Nodup) :
+    f'.1 ∉ pre'.map (·.1) ∧ f'.1 ∉ suf'.map (·.1) := by
+  simp only [List.map_append, List.map_cons] at h
+  have h1 := List.nodup_append.mp h
+  refine ⟨fun hm => h1.2.2 _ hm _ (by simp) rfl, ?_⟩
+  have h2 := h1.2.1
+  exact (List.nodup_cons.mp h2).1
+
+/-- **The struct loop of the target over data of the source.** `gs`, `vs`: the
+(remaining) fields and values of the writer; `fs'`: the fields of the reader;
+`acc`: its current field values. Every source field is either known to the
+reader — then its codec pair decodes it (`EvField`) — or unknown and skipped
+(`SkipField`). The loop ends with exactly the projection. -/
+theorem evolve_loop (pr : Ty → Ty → Val → Val) (fs' : Fields) (hnd' : (fs'.map (·.1)).Nodup) :
+    ∀ (gs : Fields) (vs : List Val), (gs.map (·.1)).Nodup → (∀ f ∈ gs, f.1 < 2 ^ 61) →
+      (∀ f ∈ gs, ∀ f' ∈ fs', f.1 = f'.1 → EvField f.2.2 f'.2.2 (pr f.2.2 f'.2.2)) →
+      (∀ f ∈ gs, f.1 ∉ fs'.map (·.1) → SkipField f.2.2) →
+      fieldsHaveTy gs vs →
+      ∀ (acc : List Val), priorFitsWith (lookupWith pr gs vs) fs' acc →
+      ∀ (fuel off : Nat), (fieldsApp gs vs).length < fuel → (fieldsApp gs vs).length < 2 ^ 64 →
+      structLoop (fun idx wt body acc => readField fs' acc idx wt body) fuel (fieldsApp gs vs) off acc
+        = .ok (projectWith (lookupWith pr gs vs) fs' acc, off + (fieldsApp gs vs).length) := by
+  intro gs
+  induction gs with
+  | nil =>
+    intro vs _ _ _ _ hty acc hfit fuel off hf _
+    cases vs with
+    | nil =>
+      simp only [fieldsApp, List.length_nil, Nat.add_zero]
+      rw [structLoop_nil _ _ _ _ (by omega)]
+      rw [projectWith_none _ fs' acc (fun f' _ => by simp [lookupWith]) (priorFitsWith_length _ _ _ hfit)]
+    | cons _ _ => simp [fieldsHaveTy] at hty
+  | cons f gs ih =>
+    obtain ⟨i, nm, t⟩ := f
+    intro vs hnd hidx hev hsk hty acc hfit fuel off hf hsz
+    cases vs with
+    | nil => simp [fieldsHaveTy] at hty
+    | cons v vs =>
+      simp only [fieldsHaveTy] at hty
+      obtain ⟨htv, htr⟩ := hty
+      have hnd2 : (gs.map (·.1)).Nodup := by
+        simp only [List.map_cons] at hnd; exact (List.nodup_cons.mp hnd).2
+      have hni : i ∉ gs.map (·.1) := by
+        simp only [List.map_cons] at hnd; exact (List.nodup_cons.mp hnd).1
+      have hidx2 : ∀ f ∈ gs, f.1 < 2 ^ 61 := fun f hf => hidx f (by simp [hf])
+      have hev2 : ∀ f ∈ gs, ∀ f' ∈ fs', f.1 = f'.1 → EvField f.2.2 f'.2.2 (pr f.2.2 f'.2.2) :=
+        fun f hf => hev f (by simp [hf])
+      have hsk2 : ∀ f ∈ gs, f.1 ∉ fs'.map (·.1) → SkipField f.2.2 := fun f hf => hsk f (by simp [hf])
+      have hi : i < 2 ^ 61 := hidx (i, nm, t) (by simp)
+      cases ho : v.omit with
+      | true =>
+        have e1 : fieldsApp ((i, nm, t) :: gs) (v :: vs) = fieldsApp gs vs := by simp [fieldsApp, ho]
+        rw [e1] at hf hsz ⊢
+        rw [lookupWith_omit pr _ gs v vs ho] at hfit ⊢
+        exact ih vs hnd2 hidx2 hev2 hsk2 htr acc hfit fuel off hf hsz
+      | false =>
+        have e1 : fieldsApp ((i, nm, t) :: gs) (v :: vs)
+            = t.app v (appendTag t.wt i) ++ fieldsApp gs vs := by simp [fieldsApp, ho]
+        rw [e1] at hf hsz ⊢
+        simp only [List.length_append] at hsz
+        by_cases hin : i ∈ fs'.map (·.1)
+        · -- the reader knows the index
+          obtain ⟨f', hf', hfi⟩ := List.mem_map.mp hin
+          obtain ⟨pre', suf', rfl⟩ := List.append_of_mem hf'
+          obtain ⟨i', nm', t'⟩ := f'
+          simp only at hfi
+          subst hfi
+          obtain ⟨hnp, hns⟩ := nodup_split_notin pre' (i', nm', t') suf' hnd'
+          simp only at hnp hns
+          obtain ⟨apre, a, asuf, rfl, hl, hfp, hfa, hfs⟩ :=
+            priorFitsWith_split _ (i', nm', t') suf' pre' acc hfit
+          have hlook : lookupWith pr ((i', nm, t) :: gs) (v :: vs) i' t' = some (pr t t' v) := by
+            simp [lookupWith, ho]
+          have ha : a = t'.zero := hfa (by simp only [hlook]; rfl)
+          subst ha
+          have hE : EvField t t' (pr t t') := hev (i', nm, t) (by simp) (i', nm', t') hf' rfl
+          have hrt := hE i' v hi htv ho (by omega)
+            (fun idx wt body acc => readField (pre' ++ (i', nm', t') :: suf') acc idx wt body)
+            (fun x => apre ++ x :: asuf)
+            (fun wt body a => readField_at pre' i' nm' t' suf' hnp apre hl a asuf wt body)
+            fuel (fieldsApp gs vs) off hf
+          rw [hrt]
+          -- the looks of the remaining fields agree away from position `i'`
+          have hagree : ∀ g' ∈ pre' ++ suf', lookupWith pr ((i', nm, t) :: gs) (v :: vs) g'.1 g'.2.2
+              = lookupWith pr gs vs g'.1 g'.2.2 := by
+            intro g' hg'
+            apply lookupWith_ne
+            intro e
+            rcases List.mem_append.mp hg' with h | h
+            · exact hnp (e ▸ List.mem_map.mpr ⟨g', h, rfl⟩)
+            · exact hns (e ▸ List.mem_map.mpr ⟨g', h, rfl⟩)
+          have hnone : lookupWith pr gs vs i' t' = none := lookupWith_none pr gs vs i' t' hni
+          have hfit' : priorFitsWith (lookupWith pr gs vs) (pre' ++ (i', nm', t') :: suf')
+              (apre ++ pr t t' v :: asuf) := by
+            apply priorFitsWith_join
+            · intro h; simp only [hnone] at h; exact absurd h (by simp)
+            · exact priorFitsWith_congr _ _ suf' asuf (fun g' hg' => hagree g' (by simp [hg'])) hfs
+            · exact priorFitsWith_congr _ _ pre' apre (fun g' hg' => hagree g' (by simp [hg'])) hfp
+          simp only [List.length_append] at hf
+          rw [ih vs hnd2 hidx2 hev2 hsk2 htr _ hfit' fuel _ (by omega) (by omega)]
+          rw [projectWith_split _ _ _ _ _ pre' apre hl, projectWith_split _ _ _ _ _ pre' apre hl]
+          simp only [hlook, hnone, Option.getD_some, Option.getD_none]
+          rw [projectWith_congr _ _ pre' apre (fun g' hg' => hagree g' (by simp [hg'])),
+            projectWith_congr _ _ suf' asuf (fun g' hg' => hagree g' (by simp [hg']))]
+          simp only [List.length_append, Nat.add_assoc]
+        · -- the reader does not know the index: `Skip`
+          have hS : SkipField t := hsk (i, nm, t) (by simp) hin
+          have hlen := priorFitsWith_length _ _ _ hfit
+          rw [hS i v hi htv ho (by omega) _ acc (skips_readField fs' acc i hin hlen) fuel (fieldsApp gs vs) off hf]
+          have hagree : ∀ g' ∈ fs', lookupWith pr ((i, nm, t) :: gs) (v :: vs) g'.1 g'.2.2
+              = lookupWith pr gs vs g'.1 g'.2.2 := by
+            intro g' hg'
+            apply lookupWith_ne
+            intro e
+            exact hin (e ▸ List.mem_map.mpr ⟨g', hg', rfl⟩)
+          simp only [List.length_append] at hf
+          rw [ih vs hnd2 hidx2 hev2 hsk2 htr acc (priorFitsWith_congr _ _ fs' acc hagree hfit) fuel _
+            (by omega) (by omega)]
+          rw [projectWith_congr _ _ fs' acc hagree]
+          simp only [List.length_append, Nat.add_assoc]
+
 end Evolve
